@@ -2,6 +2,7 @@
 import ScoresVerif.Driver.Proto
 import ScoresVerif.Model.FlipFlop
 import ScoresVerif.Spec.FlipFlop
+import ScoresVerif.Spec.FlipFlopC18Inf
 
 namespace SV.Driver.C18
 open Lean SV SV.Proto
@@ -35,12 +36,17 @@ def opSpec : Op := fun j => do
                   ("sector", outRat (SV.Spec.FlipFlop.sector xs)), ("sector_gap", outRat (SV.Spec.FlipFlop.sectorGap xs)),
                   ("tv", outRat (SV.Spec.FlipFlop.tv xs)), ("tv_ang", outRat (SV.Spec.FlipFlop.tvAng xs))]
 
-/-- spec: proportion of valid indices ≥ t; entries are rationals or "nan" -/
+/-- spec: proportion of valid indices ≥ t; entries are rationals or "nan".  A threshold is a rational (`Spec.proportion`)
+    or one of the open-ended bounds "-inf" / "inf" (`Spec.proportionExt`); a NaN threshold compares with nothing. -/
 def opSpecProp : Op := fun j => do
-  let vs ← fFlList j "ffis"; let ts ← getRatList j "thresholds"
+  let vs ← fFlList j "ffis"; let ts ← fFlList j "thresholds"
   let ov := vs.map fun v => match v with | Fl.fin q => some q | _ => none
-  pure <| Json.arr ((ts.map fun t => match SV.Spec.FlipFlop.proportion ov t with
-    | some q => outRat q | none => Json.str "nan").toArray)
+  let outO : Option Rat → Json := fun o => match o with | some q => outRat q | none => Json.str "nan"
+  pure <| Json.arr ((ts.map fun t => match t with
+    | Fl.fin q => outO (SV.Spec.FlipFlop.proportion ov q)
+    | Fl.ninf => outO (SV.Spec.FlipFlop.proportionExt ov SV.Spec.FlipFlop.Thr.ninf)
+    | Fl.pinf => outO (SV.Spec.FlipFlop.proportionExt ov SV.Spec.FlipFlop.Thr.pinf)
+    | Fl.nan => Json.str "nan").toArray)
 
 def ops : OpTable := [("c18.ffi", opFfi), ("c18.sector", opSector), ("c18.prop", opProp), ("c18.spec", opSpec),
                       ("c18.specprop", opSpecProp)]
